@@ -819,6 +819,16 @@ def glue_greenlet() -> None:
                     and outer_frame.f_back is not None
                 ):
                     outer_frame = outer_frame.f_back
+        else:
+            # Suspended: its stack is only its own frames, no matter which
+            # greenlet is asking. (The second condition is for PyPy, where
+            # the frames of a suspended greenlet form a cycle.)
+            outer_frame = inner_frame
+            while (
+                outer_frame.f_back is not None
+                and outer_frame.f_back is not inner_frame
+            ):
+                outer_frame = outer_frame.f_back
         return StackSlice(outer=outer_frame, inner=inner_frame)
 
     if sys.implementation.name != "pypy":
